@@ -81,6 +81,8 @@ def over_limit_text(ctx, t, rng):
     if type(t) is T.String and t.length is not None:
         return ("over-long", "x" * (t.length + 1), "y" * t.length)
     if type(t) is T.Integer and t.length is not None:
+        if rng.random() < 0.5:
+            return ("over-limit-negative", str(-(10 ** t.length)), str(-(10 ** t.length - 1)))
         return ("over-limit", str(10 ** t.length), str(10 ** t.length - 1))
     if type(t) is T.OneOf:
         return ("foreign-token", "NOT_A_TOKEN_", rng.choice(list(t.valid)))
@@ -106,11 +108,25 @@ def tree_mutants(ctx, cls, tree, rng):
     nonlist = [i for i, k in enumerate(kids) if spec.get(attr_of(k.tag)) is not None and not isinstance(spec[attr_of(k.tag)], (T.ListAggregate, T.ListElement, T.Unsupported))]
     if nonlist:
         i = rng.choice(nonlist)
-        m = copy.deepcopy(tree); m.insert(i + 1, copy.deepcopy(m[i])); out.append(("duplicate-child", "reject", m))
+        renamed = cls.__name__ in ("MAIL", "MFINFO", "STOCKINFO") and kids[i].tag in wire
+        m = copy.deepcopy(tree); m.insert(i + 1, copy.deepcopy(m[i])); out.append(("duplicate-renamed-child" if renamed else "duplicate-child", "reject", m))
     adj = [i for i in nonlist if i + 1 in nonlist]
     if adj:
         i = rng.choice(adj)
         m = copy.deepcopy(tree); a, b = m[i], m[i + 1]; m.remove(a); m.insert(i + 1, a); out.append(("swap-children", "reject", m))
+    # repeated children and the sequence: a list child moved behind a later non-repeated element, or split around it
+    islist = lambda i: isinstance(spec.get(attr_of(kids[i].tag)), (T.ListAggregate, T.ListElement))
+    order = list(spec)
+    lists = [i for i in range(len(kids)) if islist(i)]
+    later = [j for j in nonlist if lists and j > lists[-1]]
+    if lists and later:
+        i, j = rng.choice(lists), rng.choice(later)
+        m = copy.deepcopy(tree); x = m[i]; m.remove(x); m.insert(j, x); out.append(("list-child-after-later-element", "reject", m))
+        if len(later) >= 2:
+            a, b = later[0], later[1]
+            m = copy.deepcopy(tree); ea, eb, x = m[a], m[b], copy.deepcopy(m[lists[0]])
+            # ... B, list child, A ...: two later elements swapped with a list child between them
+            m.remove(ea); m.remove(eb); m.insert(a, eb); m.insert(a + 1, x); m.insert(a + 2, ea); out.append(("later-elements-swapped-around-list-child", "reject", m))
     # value limits on a data child
     leafs = [i for i in nonlist if kids[i].text and not isinstance(spec[attr_of(kids[i].tag)], T.SubAggregate)]
     rng.shuffle(leafs)
